@@ -9,6 +9,7 @@ import (
 	"github.com/paulsonkoly/chess-3/move"
 	"github.com/paulsonkoly/chess-3/movegen"
 
+	"verif/harness/conv"
 	"verif/harness/ref"
 )
 
@@ -62,7 +63,7 @@ func SameSet(a []move.Move, b []ref.Move) bool {
 	x := make([]uint16, len(a))
 	y := make([]uint16, len(b))
 	for i := range a {
-		x[i] = uint16(a[i])
+		x[i] = uint16(conv.R(a[i]))
 		y[i] = uint16(b[i])
 	}
 	sort.Slice(x, func(i, j int) bool { return x[i] < x[j] })
